@@ -14,7 +14,7 @@ class C20(C03):
             "returns exactly the bytes of each keypress); both tables entry by entry (every curses-named sequence has a "
             "curtsies name); every valid configuration key name C-a..C-z, C-[ C-\\ C-] C-^ C-_, M-<every printable non-space "
             "ASCII character>, F1..F12 and the empty (unbound) name, plus a catalogue of invalid names (note only). "
-            "distinct_nontrivial = nodes x encodings + streams + config names")
+            "every valid name asked twice more of the same KeyMap object after all were served; distinct_nontrivial = nodes x encodings + streams + config names")
     INVALID = ["x", "Fx", "C-", "M-", "F0", "F13", "ctrl-a", "C-ab", "M-ab", "f1", "C", "M", "F", "C-é", " ", "F-1", "A-x"]
 
     def inputs(self, tier, rng):
@@ -34,6 +34,12 @@ class C20(C03):
             yield {"op": "keymap", "key": n, "valid": 1}
         for n in self.INVALID:
             yield {"op": "keymap", "key": n, "valid": 0}
+        # the same KeyMap object asked again after it has served every valid name (and refused the invalid ones): in the
+        # same order, then backwards
+        for n in names:
+            yield {"op": "keymap", "key": n, "valid": 1, "pass": 2}
+        for n in reversed(names):
+            yield {"op": "keymap", "key": n, "valid": 1, "pass": 3}
 
     def execute(self, inp):
         if inp["op"] == "node20":
